@@ -2,12 +2,12 @@
 # seed_matrix.sh: apply every kept seeded change to /repo in turn, run the property's quick check, undo; prints one line per seed
 cd /verif
 [ -n "$(git -C /repo status --porcelain)" ] && { echo "/repo has uncommitted changes"; exit 2; }
-for d in seeded/C??; do
-  id=$(basename $d)
-  if ! git -C /repo apply --check /verif/$d/patch.diff 2>/dev/null; then echo "$id: patch no longer applies to HEAD"; continue; fi
+for d in seeded/C??*; do
+  name=$(basename $d); id=${name:0:3}
+  if ! git -C /repo apply --check /verif/$d/patch.diff 2>/dev/null; then echo "$name: patch no longer applies to HEAD"; continue; fi
   git -C /repo apply /verif/$d/patch.diff
   out=$(./check $id quick 2>&1); rc=$?
   git -C /repo checkout -- .
-  echo "$id: exit=$rc $(echo "$out" | grep -c '^VIOLATION') violation line(s) $(echo "$out" | grep -o 'no-failing-input-found' | head -1)"
+  echo "$name: exit=$rc $(echo "$out" | grep -c '^VIOLATION') violation line(s) $(echo "$out" | grep -o 'no-failing-input-found' | head -1)"
 done
 python3 tools/gen_all.py /repo >/dev/null
